@@ -63,6 +63,7 @@ func createDefaultHTTPClient() *http.Client {
 const (
 	ConstSessionTimeout      = 86400          // Session timeout in seconds
 	defaultBlacklistDuration = 24 * time.Hour // Default duration to blacklist a JTI
+	maxIncomingPathLength    = 1024           // Longer request URIs are not remembered across a login
 )
 
 // TokenVerifier interface for token verification
@@ -1289,7 +1290,7 @@ func (t *TraefikOidc) defaultInitiateAuthentication(rw http.ResponseWriter, req 
 	}
 	// Store the original path the user was trying to access
 	incomingPath := req.URL.RequestURI()
-	if !isLocalRedirectTarget(incomingPath) {
+	if !isLocalRedirectTarget(incomingPath) || len(incomingPath) > maxIncomingPathLength {
 		incomingPath = "/"
 	}
 	session.SetIncomingPath(incomingPath)
